@@ -15,6 +15,7 @@ import (
 func init() {
 	verifHarnesses["VerifC03_Echo"] = VerifC03_Echo
 	verifHarnesses["VerifC03_PingFire"] = VerifC03_PingFire
+	verifHarnesses["VerifC03_VoidThrows"] = VerifC03_VoidThrows
 }
 
 // verifLoop hands every request frame to the processor and returns what it wrote.
@@ -69,9 +70,13 @@ const (
 	verifUndeclared
 	verifApp
 	verifOutcomes
+	verifDeclared2 = verifOutcomes     // the second declared exception (remove only)
+	verifNilValue  = verifOutcomes + 1 // (nil, nil) from a method returning a struct (echo only)
 )
 
 type verifHandler struct {
+	strict  *Strict
+	id      string
 	calls   int
 	arg     *Inner
 	n       int32
@@ -100,7 +105,19 @@ func (h *verifHandler) Echo(fctx frugal.FContext, arg *Inner, n int32) (*Inner, 
 	if err := h.fail(); err != nil {
 		return nil, err
 	}
+	if h.outcome == verifNilValue {
+		return nil, nil
+	}
 	return h.ret, nil
+}
+
+func (h *verifHandler) Remove(fctx frugal.FContext, id string) error {
+	h.calls++
+	h.id = id
+	if h.outcome == verifDeclared2 {
+		return h.strict
+	}
+	return h.fail()
 }
 
 func (h *verifHandler) Ping(fctx frugal.FContext) error {
@@ -161,7 +178,8 @@ func verifSetup(h *verifHandler) (*FBasicClient, *verifLoop) {
 }
 
 func VerifC03_Echo() {
-	h := &verifHandler{outcome: verifChoice(verifOutcomes), ret: verifInner(), appType: int32(verifRange(0, 100))}
+	h := &verifHandler{outcome: verifChoice(verifOutcomes + 2), ret: verifInner(), appType: int32(verifRange(0, 100))}
+	verifAssume(h.outcome != verifDeclared2)
 	h.oops = NewOops()
 	h.oops.Why = verifStr(verifChoice(2))
 	if verifNondetBool() {
@@ -179,6 +197,9 @@ func VerifC03_Echo() {
 	case verifValue:
 		verifAssert(err == nil && verifInnerEq(got, h.ret), "the caller observes the returned value")
 		verifReach("value")
+	case verifNilValue:
+		verifAssert(err == nil && got == nil, "a nil value with a nil error reaches the caller as such")
+		verifReach("nil-value")
 	case verifDeclared:
 		o, ok := err.(*Oops)
 		verifAssert(ok && got == nil, "the caller observes the declared exception")
@@ -222,6 +243,39 @@ func VerifC03_PingFire() {
 			verifAssert(!loop.replied, "a successful oneway call produces no reply")
 		}
 		verifReach("fire")
+	}
+	verifReach("end")
+}
+
+// a void method with two declared exceptions
+func VerifC03_VoidThrows() {
+	h := &verifHandler{outcome: verifChoice(verifOutcomes + 1), appType: int32(verifRange(0, 100))}
+	h.oops = NewOops()
+	h.oops.Why = verifStr(verifChoice(2))
+	h.strict = NewStrict()
+	h.strict.Why = verifStr(verifChoice(2))
+	h.strict.Level = verifNondetI32()
+	client, loop := verifSetup(h)
+	id := verifStr(verifChoice(verifBound() + 1))
+	err := client.Remove(frugal.NewFContext("cid"), id)
+	verifAssert(h.calls == 1 && loop.requests == 1 && h.id == id, "the handler is invoked exactly once with the equal argument")
+	switch h.outcome {
+	case verifValue:
+		verifAssert(err == nil, "a void method that succeeds returns no error")
+		verifReach("void-ok")
+	case verifDeclared:
+		o, ok := err.(*Oops)
+		verifAssert(ok && o.Why == h.oops.Why, "the caller observes the first declared exception of a void method")
+		verifReach("void-declared-1")
+	case verifDeclared2:
+		o, ok := err.(*Strict)
+		verifAssert(ok && o.Why == h.strict.Why && o.Level == h.strict.Level, "the caller observes the second declared exception of a void method")
+		verifReach("void-declared-2")
+	case verifUndeclared:
+		te, ok := err.(thrift.TApplicationException)
+		verifAssert(ok && te.TypeId() == frugal.APPLICATION_EXCEPTION_INTERNAL_ERROR, "undeclared failure -> INTERNAL_ERROR")
+	case verifApp:
+		verifAppOutcome(err, h.appType)
 	}
 	verifReach("end")
 }
